@@ -413,6 +413,23 @@ def identifier_rule(repo: Repo, rep: Report, rid: str) -> None:
               "a newline or a comment between the words) is then an unknown type", fi.loc())
 
 
+def getattr_fold_rule(repo: Repo, rep: Report, rid: str) -> None:
+    rep.rule(rid, "attribute access on the cstruct object, folded over 10 (constants, typedefs, name) cases: a constant is returned whatever its value "
+                  "(0, '', None, False), a typedef is resolved, an unknown name raises AttributeError, an alias that cannot be resolved raises the "
+                  "resolve error (matched against the repository's own exception hierarchy) and is not turned into 'no such attribute'")
+    from ..folds import fold_getattr
+
+    fi = repo.func("cstruct.py", "cstruct.__getattr__")
+    fold = fold_getattr(repo)
+    if fold is None:
+        rep.ok(rid, f"{fi.key}:fold", "not foldable with the evaluator's whitelist", fi.loc(), nontrivial=False)
+        return
+    bad = fold["bad"]
+    rep.check(not bad, rid, f"{fi.key}:fold", f"{fold['cases']} cases agree with the reference",
+              f"cs.<name> for {bad[0][0] if bad else ''}: got {bad[0][1] if bad else ''!r}, expected {bad[0][2] if bad else ''!r}: what the object provides under a name no "
+              "longer matches what its tables (and the stub generated from them) say", fi.loc())
+
+
 def run(repo: Repo, rep: Report, tier: str) -> None:
     keyword_rule(repo, rep, "C13.R1")
     gap_rule(repo, rep, "C13.R2")
@@ -430,6 +447,4 @@ def run(repo: Repo, rep: Report, tier: str) -> None:
 
     memo_rule(repo, rep, "C13.R11")
     identifier_rule(repo, rep, "C13.R12")
-
-
-
+    getattr_fold_rule(repo, rep, "C13.R13")
